@@ -35,7 +35,7 @@ def regen(ctx):
     new = os.path.join(ctx.build, "GenVec.v.new")
     cmd = ["python3", os.path.join(ctx.verif, "tools/cxx2coq/cxx2coq.py"), os.path.join(ctx.verif, "tools/cxx2coq/inst/vec.cpp"), new,
            "--repo", ctx.repo, "--inc", os.path.join(ctx.verif, "build", "include"), "-D", "RKCOMMON_NO_SIMD",
-           "--filter2", "std::less", "--only", ONLY]
+           "--retloc", "--filter2", "std::less", "--only", ONLY]
     rc, out = vlib.sh(cmd, timeout=300)
     if rc != 0 or not os.path.exists(new):
         ctx.broken.append("cxx2coq failed on tools/cxx2coq/inst/vec.cpp (an inventoried overload no longer instantiates?): " + out[-600:])
@@ -231,6 +231,29 @@ def close_enough(a, b, ret):
 
 
 # ------------------------------------------------------------------------------------------ run
+def without_return_type(key):
+    """'name : RET (PARAMS) const  template<..>' -> 'name : (PARAMS) const  template<..>' (also drops a trailing '-> RET')"""
+    if " : " not in key:
+        return key
+    name, ty = key.split(" : ", 1)
+    tpl = ""
+    if "  template<" in ty:
+        ty, tpl = ty.split("  template<", 1)
+        tpl = "  template<" + tpl
+    depth = 0
+    for i, ch in enumerate(ty):
+        if ch == "<": depth += 1
+        elif ch == ">": depth -= 1
+        elif ch == "(" and depth == 0:
+            ty = ty[i:]
+            break
+    else:
+        return key
+    if ") -> " in ty:
+        ty = ty[:ty.index(") -> ") + 1]
+    return name + " : " + ty + tpl
+
+
 def scan_declarations(ctx):
     """inventory closure, part 1 (before any behaviour is compared): every declaration of vec.h (+ the vec-related helpers of rkmath.h) found
     in the clang AST of THIS working tree must have an entry in props/C04/cover.py and vice versa; breaks are reported by NAME"""
@@ -241,10 +264,26 @@ def scan_declarations(ctx):
     except Exception as ex:
         ctx.broken.append("inventory: the declaration scan of vec.h failed: %s" % str(ex)[-300:])
         return None
-    for k in sorted(set(decls) - set(cover.COVER)):
-        ctx.broken.append("inventory: declaration with no row in props/C04/cover.py (new overload / member, or changed signature): %s:%s  %s"
-                          % (decls[k]["file"], decls[k]["line"], k))
-    for k in sorted(set(cover.COVER) - set(decls)):
+    new = set(decls) - set(cover.COVER)
+    gone = set(cover.COVER) - set(decls)
+    # a declaration whose RETURN TYPE changed (same name, same parameter list, same template header) is matched to its row: it is reported
+    # by name as a signature change and keeps being exercised through that row
+    byparams = {}
+    for k in gone:
+        byparams.setdefault(without_return_type(k), []).append(k)
+    for k in sorted(new):
+        m = byparams.get(without_return_type(k), [])
+        if len(m) == 1:
+            row = m[0]
+            ctx.broken.append("inventory: SIGNATURE CHANGE (return type) of the declaration of row '%s': the working tree declares '%s' (%s:%s)"
+                              % (row, k, decls[k]["file"], decls[k]["line"]))
+            decls[row] = dict(decls[k], changed_to=k)
+            del decls[k]
+            gone.discard(row)
+        else:
+            ctx.broken.append("inventory: declaration with no row in props/C04/cover.py (new overload / member, or changed signature): %s:%s  %s"
+                              % (decls[k]["file"], decls[k]["line"], k))
+    for k in sorted(gone):
         ctx.broken.append("inventory: row whose declaration vanished from the working tree (removed or signature changed): %s" % k)
     for b in ctx.broken:
         if b.startswith("inventory:"): ctx.log(b)
@@ -519,6 +558,10 @@ def translation_validation(ctx, inv, mkprops, model, tvs, spec_only=None):
             if e["name"] not in viol:
                 viol[e["name"]] = {"overload": e["name"], "cxx_call": e["cxx"], "family": e["fam"], "case_line": l,
                                    "operands": l.split()[1:], "observed": il, "required": sl,
+                                   "operand_shapes_and_element_types": [("vec" + sh if sh else "scalar") + ":" + inv.CXXT[t] for (sh, t) in e["args"]],
+                                   "result_identity": ("the overload has to return its operand %s ITSELF (a reference): observed '%s' = a detached copy; "
+                                                       "`auto&& r = (%s); r op= t;` does not reach %s" % (inv.ARGN[e["ref"]], il.split()[-1], e["cxx"], inv.ARGN[e["ref"]]))
+                                   if (e.get("ref") is not None and il.split()[-1:] != sl.split()[-1:]) else None,
                                    "padded_operands_constructed_as": pad_text(inv, e, vnum[i]) or "no padded operand",
                                    "required_is": "the component-wise lifting of the scalar definition (inventory term spec_%s, machine reading)" % e["name"],
                                    "model_regenerated_from_this_tree": ml}
@@ -532,6 +575,8 @@ def translation_validation(ctx, inv, mkprops, model, tvs, spec_only=None):
     for name, doc in order[:10]:
         if name == "arg_max":
             ctx.violation("arg_max does not return the first index of a maximal component", doc)
+        elif doc.get("result_identity") and doc["observed"].split()[:-1] == doc["required"].split()[:-1]:
+            ctx.violation("%s (%s on %s) returns a detached copy instead of its left operand itself" % (name, doc["cxx_call"], ", ".join(doc["operand_shapes_and_element_types"])), doc)
         else:
             ctx.violation("%s is not the component-wise lifting of its scalar definition" % name, doc)
     if len(viol) > 10:
